@@ -15,6 +15,7 @@ CONSTANTS
   ClosedOnlyWait = FALSE
   StaleOverwrite = FALSE
   NoneTimeoutRejected = FALSE
+  NoDeadSkip = FALSE
   Hist = FALSE
 INVARIANT TypeOK
 INVARIANT Inv_AllDead
